@@ -39,6 +39,10 @@ fn naive_memchr(a: u8, h: &[u8]) -> Option<usize> {
     None
 }
 fn not_available() -> bool { false }
+// Regex::is_match is never reached with a real Regex (regex_like is stubbed), but `evaluate` matches on the
+// variant and CBMC would otherwise symbolically execute the whole regex engine (measured: 3.7 M symex steps,
+// out of memory, even for a concrete pattern).
+fn stub_is_match(_r: &Regex, _h: &str) -> bool { false }
 fn stub_regex_like(_pattern: &str, _ci: bool) -> Result<Regex, ArrowError> { Err(ArrowError::DivideByZero) }
 
 // =============================================================================================
@@ -256,7 +260,7 @@ fn clean(p: &[char; MAXP], from: usize, to: usize) -> bool {
 // Patterns classified Regex (Err under the stub) are undecided here.
 // Stubs: memchr3/memchr -> naive; avx2/sse2 is_available -> false (portable memmem runs for real);
 //        regex_like -> Err sentinel; alloc::fmt::format.
-// NOT CONFIRMED under load (never seen to finish on the shared machine, load 40-75): keep tier=thorough until re-measured
+// confirmed at machine load ~40: 876 s
 // @unit name=like_nonregex_matches_reference props=C20 kind=bounded bound=pattern<=4_chars_haystack<=3_chars_alphabet_of_7_incl_2-_and_3-byte_scalars fns=Predicate::like,Predicate::evaluate,Predicate::contains,contains_like_pattern,starts_with,ends_with timeout=900 mem=6 tier=thorough
 #[kani::proof]
 #[kani::unwind(14)]
@@ -265,6 +269,7 @@ fn clean(p: &[char; MAXP], from: usize, to: usize) -> bool {
 #[kani::stub(Avx2PackedPair::is_available, not_available)]
 #[kani::stub(Sse2PackedPair::is_available, not_available)]
 #[kani::stub(regex_like, stub_regex_like)]
+#[kani::stub(Regex::is_match, stub_is_match)]
 #[kani::stub(alloc::fmt::format, stub_format)]
 fn like_nonregex_matches_reference() {
     let p: [char; MAXP] = [sym_like_char(), sym_like_char(), sym_like_char(), sym_like_char()];
@@ -281,22 +286,46 @@ fn like_nonregex_matches_reference() {
     let contains_shape = pn >= 2 && p[0] == '%' && p[pn - 1] == '%' && clean(&p, 1, pn - 1);
     kani::assume(!contains_shape);
     let r = Predicate::like(ps);
-    if let Ok(pred) = &r {
-        // (a) semantics
-        let want = like_match(&p, pn, &h, hn, false);
-        assert!(pred.evaluate(hs) == want);
-        // (b) structure: literal == the expected sub-slice of the pattern bytes and it is clean
-        let first_pct = pn >= 1 && p[0] == '%';
-        let last_pct = pn >= 1 && p[pn - 1] == '%';
-        match pred {
-            Predicate::Eq(v) => { assert!(clean(&p, 0, pn)); assert!(v.as_bytes() == &pb[..pl]); kani::cover!(pn == 3 && want); }
-            Predicate::StartsWith(v) => { assert!(last_pct && clean(&p, 0, pn - 1)); assert!(v.as_bytes() == &pb[..pl - 1]); kani::cover!(pn == 3 && want && hn == 3); }
-            Predicate::EndsWith(v) => { assert!(first_pct && clean(&p, 1, pn)); assert!(v.as_bytes() == &pb[1..pl]); kani::cover!(pn == 3 && want && hn == 3); }
-            _ => assert!(false),     // like() never yields a case-insensitive strategy; Regex is Err under the stub
+    let want = like_match(&p, pn, &h, hn, false);
+    let first_pct = pn >= 1 && p[0] == '%';
+    let last_pct = pn >= 1 && p[pn - 1] == '%';
+    // `evaluate` is called on a freshly built value of the SAME variant with the SAME payload: CBMC does not
+    // propagate the variant through the Result returned by like(), and would otherwise symbolically execute
+    // every arm of evaluate (memmem's fn-pointer dispatch, the regex engine: 3.7 M steps, out of memory).
+    match &r {
+        Ok(Predicate::Eq(v)) => {
+            assert!(clean(&p, 0, pn));
+            assert!(v.as_bytes() == &pb[..pl]);
+            let q = Predicate::Eq(*v);
+            assert!(q.evaluate(hs) == want);
+            kani::cover!(pn == 3 && want);
+            kani::cover!(pn == 3 && !want && hn == 3);
+            std::mem::forget(q);
         }
-    } else {
-        kani::cover!(pn == 3 && p[1] == '%');      // "a%b"-like patterns go to Regex
-        kani::cover!(pn == 2 && p[0] == '\\');     // escapes go to Regex
+        Ok(Predicate::StartsWith(v)) => {
+            assert!(last_pct && clean(&p, 0, pn - 1));
+            assert!(v.as_bytes() == &pb[..pl - 1]);
+            let q = Predicate::StartsWith(*v);
+            assert!(q.evaluate(hs) == want);
+            kani::cover!(pn == 3 && want && hn == 3);
+            kani::cover!(pn == 3 && !want && hn == 3);
+            std::mem::forget(q);
+        }
+        Ok(Predicate::EndsWith(v)) => {
+            assert!(first_pct && clean(&p, 1, pn));
+            assert!(v.as_bytes() == &pb[1..pl]);
+            let q = Predicate::EndsWith(*v);
+            assert!(q.evaluate(hs) == want);
+            kani::cover!(pn == 3 && want && hn == 3);
+            kani::cover!(pn == 3 && !want && hn == 3);
+            std::mem::forget(q);
+        }
+        Ok(_) => assert!(false),     // like() never yields a case-insensitive strategy; Contains shapes are excluded; Regex is Err under the stub
+        Err(_) => {
+            kani::cover!(pn == 3 && p[1] == '%');      // "a%b"-like patterns go to Regex
+            kani::cover!(pn == 2 && p[0] == '\\');     // escapes go to Regex
+            kani::cover!(pn == 2 && p[1] == '_');      // `_` goes to Regex
+        }
     }
     std::mem::forget(r);
 }
@@ -315,6 +344,7 @@ fn like_nonregex_matches_reference() {
 #[kani::unwind(14)]
 #[kani::stub(memchr3, naive_memchr3)]
 #[kani::stub(regex_like, stub_regex_like)]
+#[kani::stub(Regex::is_match, stub_is_match)]
 #[kani::stub(alloc::fmt::format, stub_format)]
 fn ilike_nonregex_matches_reference() {
     let pb: [u8; MAXP] = kani::any();
@@ -331,19 +361,42 @@ fn ilike_nonregex_matches_reference() {
     let (ps, hs) = (str_of(&pb, pn), str_of(&hb, hn));
 
     let r = Predicate::ilike(ps, is_ascii);
-    if let Ok(pred) = &r {
-        assert!(is_ascii);
-        let want = like_match(&p, pn, &h, hn, true);
-        assert!(pred.evaluate(hs) == want);
-        match pred {
-            Predicate::IEqAscii(v) => { assert!(clean(&p, 0, pn)); assert!(v.as_bytes() == &pb[..pn]); kani::cover!(pn == 3 && want && pb[0] != hb[0]); }
-            Predicate::IStartsWithAscii(v) => { assert!(pn >= 1 && p[pn - 1] == '%' && clean(&p, 0, pn - 1)); assert!(v.as_bytes() == &pb[..pn - 1]); kani::cover!(pn == 3 && want && hn == 3 && pb[0] != hb[0]); }
-            Predicate::IEndsWithAscii(v) => { assert!(pn >= 1 && p[0] == '%' && clean(&p, 1, pn)); assert!(v.as_bytes() == &pb[1..pn]); kani::cover!(pn == 3 && want && hn == 3 && pb[2] != hb[2]); }
-            _ => assert!(false),
+    let want = like_match(&p, pn, &h, hn, true);
+    match &r {
+        Ok(Predicate::IEqAscii(v)) => {
+            assert!(is_ascii);
+            assert!(clean(&p, 0, pn));
+            assert!(v.as_bytes() == &pb[..pn]);
+            let q = Predicate::IEqAscii(*v);
+            assert!(q.evaluate(hs) == want);
+            kani::cover!(pn == 3 && want && pb[0] != hb[0]);
+            std::mem::forget(q);
         }
-    } else {
-        kani::cover!(!is_ascii);
-        kani::cover!(is_ascii && pn == 3 && pb[0] == b'%' && pb[2] == b'%');   // %x% has no ASCII-ci strategy -> Regex
+        Ok(Predicate::IStartsWithAscii(v)) => {
+            assert!(is_ascii);
+            assert!(pn >= 1 && p[pn - 1] == '%' && clean(&p, 0, pn - 1));
+            assert!(v.as_bytes() == &pb[..pn - 1]);
+            let q = Predicate::IStartsWithAscii(*v);
+            assert!(q.evaluate(hs) == want);
+            kani::cover!(pn == 3 && want && hn == 3 && pb[0] != hb[0]);
+            kani::cover!(pn == 3 && !want && hn == 3);
+            std::mem::forget(q);
+        }
+        Ok(Predicate::IEndsWithAscii(v)) => {
+            assert!(is_ascii);
+            assert!(pn >= 1 && p[0] == '%' && clean(&p, 1, pn));
+            assert!(v.as_bytes() == &pb[1..pn]);
+            let q = Predicate::IEndsWithAscii(*v);
+            assert!(q.evaluate(hs) == want);
+            kani::cover!(pn == 3 && want && hn == 3 && pb[2] != hb[2]);
+            kani::cover!(pn == 3 && !want && hn == 3);
+            std::mem::forget(q);
+        }
+        Ok(_) => assert!(false),
+        Err(_) => {
+            kani::cover!(!is_ascii);
+            kani::cover!(is_ascii && pn == 3 && pb[0] == b'%' && pb[2] == b'%');   // %x% has no ASCII-ci strategy -> Regex
+        }
     }
     std::mem::forget(r);
 }
@@ -356,6 +409,7 @@ fn ilike_nonregex_matches_reference() {
 #[kani::unwind(14)]
 #[kani::stub(memchr3, naive_memchr3)]
 #[kani::stub(regex_like, stub_regex_like)]
+#[kani::stub(Regex::is_match, stub_is_match)]
 #[kani::stub(alloc::fmt::format, stub_format)]
 fn ilike_non_ascii_pattern_is_regex() {
     let p: [char; 3] = [sym_char(), sym_char(), sym_char()];
@@ -423,6 +477,7 @@ macro_rules! like_contains {
         #[kani::stub(Avx2PackedPair::is_available, not_available)]
         #[kani::stub(Sse2PackedPair::is_available, not_available)]
         #[kani::stub(regex_like, stub_regex_like)]
+        #[kani::stub(Regex::is_match, stub_is_match)]
         #[kani::stub(alloc::fmt::format, stub_format)]
         fn $name() {
             let (mut pb, mut hb) = ([0u8; 12], [0u8; 12]);
@@ -436,40 +491,43 @@ macro_rules! like_contains {
             while i < 2 { if i < ln { p[1 + i] = lit[i]; } i += 1; }
             let pn = ln + 2;                       // p = ['%', lit.., '%']
             let r = Predicate::like(str_of(&pb, pl));
-            assert!(r.is_ok());
-            if let Ok(pred) = &r {
-                match pred {
-                    Predicate::Contains(f) => assert!(f.needle() == &pb[1..lend]),
-                    _ => assert!(false),
-                }
-                let got = pred.evaluate(str_of(&hb, hl));
-                assert!(got == like_match(&p, pn, &h, hn, false));
-                let mut occurs = false;
-                let mut s = 0;
-                while s < 4 {
-                    if s + ln <= hn {
-                        let mut eq = true;
-                        let mut j = 0;
-                        while j < 2 { if j < ln && h[s + j] != lit[j] { eq = false; } j += 1; }
-                        if eq { occurs = true; }
+            match &r {
+                Ok(Predicate::Contains(f)) => {
+                    assert!(f.needle() == &pb[1..lend]);
+                    // fresh value of the same variant built from the needle that like() chose (see the
+                    // remark in like_nonregex_matches_reference)
+                    let q = Predicate::contains(unsafe { std::str::from_utf8_unchecked(f.needle()) });
+                    let got = q.evaluate(str_of(&hb, hl));
+                    assert!(got == like_match(&p, pn, &h, hn, false));
+                    let mut occurs = false;
+                    let mut s = 0;
+                    while s < 4 {
+                        if s + ln <= hn {
+                            let mut eq = true;
+                            let mut j = 0;
+                            while j < 2 { if j < ln && h[s + j] != lit[j] { eq = false; } j += 1; }
+                            if eq { occurs = true; }
+                        }
+                        s += 1;
                     }
-                    s += 1;
+                    assert!(got == occurs);
+                    kani::cover!(got);
+                    kani::cover!(!got || ln == 0);
+                    std::mem::forget(q);
                 }
-                assert!(got == occurs);
-                kani::cover!(got);
-                kani::cover!(!got || ln == 0);
+                _ => assert!(false),
             }
             std::mem::forget(r);
         }
     };
 }
-// NOT CONFIRMED under load (never seen to finish on the shared machine, load 40-75): keep tier=thorough until re-measured
+// confirmed at machine load ~40: 205 s
 // @unit name=like_contains_empty props=C20 kind=bounded bound=pattern_%%_haystack_widths(1,2,1) fns=Predicate::like,Predicate::contains,Predicate::evaluate timeout=900 mem=4 tier=thorough
 like_contains!(like_contains_empty, [0, 0], [1, 2, 1]);
 // NOT CONFIRMED under load (never seen to finish on the shared machine, load 40-75): keep tier=thorough until re-measured
 // @unit name=like_contains_w1 props=C20 kind=bounded bound=literal_widths(1)_haystack_widths(1,1,2) fns=Predicate::like,Predicate::contains,Predicate::evaluate timeout=900 mem=4 tier=thorough
 like_contains!(like_contains_w1, [1, 0], [1, 1, 2]);
-// NOT CONFIRMED under load (never seen to finish on the shared machine, load 40-75): keep tier=thorough until re-measured
+// confirmed at machine load ~40: 963 s
 // @unit name=like_contains_w2 props=C20 kind=bounded bound=literal_widths(2)_haystack_widths(1,2,2) fns=Predicate::like,Predicate::contains,Predicate::evaluate timeout=900 mem=4 tier=thorough
 like_contains!(like_contains_w2, [2, 0], [1, 2, 2]);
 // NOT CONFIRMED under load (never seen to finish on the shared machine, load 40-75): keep tier=thorough until re-measured
@@ -479,27 +537,3 @@ like_contains!(like_contains_w11, [1, 1], [1, 1, 1]);
 // @unit name=like_contains_w3 props=C20 kind=bounded bound=literal_widths(3)_haystack_widths(3,1,3) fns=Predicate::like,Predicate::contains,Predicate::evaluate timeout=900 mem=4 tier=thorough
 like_contains!(like_contains_w3, [3, 0], [3, 1, 3]);
 
-// ---- scratch (bisecting symex cost; no @unit) ----
-#[kani::proof]
-#[kani::unwind(14)]
-#[kani::stub(memchr3, naive_memchr3)]
-#[kani::stub(regex_like, stub_regex_like)]
-#[kani::stub(alloc::fmt::format, stub_format)]
-fn exp_like_concrete() {
-    let r = Predicate::like("a%");
-    if let Ok(p) = &r { assert!(p.evaluate("abc")); }
-    std::mem::forget(r);
-}
-#[kani::proof]
-#[kani::unwind(14)]
-#[kani::stub(memchr3, naive_memchr3)]
-#[kani::stub(regex_like, stub_regex_like)]
-#[kani::stub(alloc::fmt::format, stub_format)]
-fn exp_like_sym2() {
-    let p: [char; 2] = [sym_like_char(), sym_like_char()];
-    let mut pb = [0u8; 6];
-    let pl = encode(&p, 2, &mut pb);
-    let r = Predicate::like(str_of(&pb, pl));
-    kani::cover!(r.is_ok());
-    std::mem::forget(r);
-}
